@@ -385,6 +385,10 @@ func (ps *parser) unary() Expr {
 		ps.next()
 		return &EUnary{t.s, ps.unary()}
 	}
+	if t.kind == tOp && t.s == "*" {
+		ps.next()
+		return &EUnary{"deref", ps.unary()}
+	}
 	return ps.postfix(ps.primary())
 }
 
